@@ -44,7 +44,14 @@ for f in "${files[@]}"; do
   suite="pass"
   (cd "$S/repo" && cargo test --offline >/dev/null 2>&1) || suite="FAIL"
   case "$CHECKS" in
-    own) ids="${name%%-*}" ;;
+    own) ids="${name%%-*}"
+         # a seed whose meta.json names the properties it really violates is judged against those
+         if [ -f "$(dirname "$f")/meta.json" ]; then
+           v=$(python3 -c "
+import json
+m=json.load(open('$(dirname "$f")/meta.json')); print(' '.join(m.get('violates',[])))" 2>/dev/null)
+           [ -n "$v" ] && ids="$v"
+         fi ;;
     expected) ids=$(python3 -c "
 import json,sys
 idx={m['name']:m for m in json.load(open('$HERE/mutants/index.json'))}
